@@ -206,8 +206,7 @@ theorem agree0 : Agree cx0 env0 where
     cases x <;> simp [Ctx.name, cx0, env0, List.replicate_succ]
   vty := rfl
   fres f := by simp [cx0, env0]
-  builtin i name h := by
-    cases i <;> simp [intrinsicForm] at h <;> subst h <;> rfl
+  builtin := by decide
 
 
 /-- `(2147483647 + t) > 0` with `t : bool`, as the type checker elaborates it: `Cast(IntLiteral, t)` -/
